@@ -73,7 +73,10 @@ def apply(text, rules, what, log):
                                 'note': 'explicit panic (assert!/debug_assert!/unreachable!/panic!) -> vx_panic() requires false: reaching it is a failed obligation'})
     text, n = r0_attrs(text)
     text, n = r0_vis(text)
-    text, n = r0_pubfields(text)
+    if 'KEEPPRIV' not in rules:
+        # (KEEPPRIV: the struct keeps its private fields - needed for a Verus type invariant)
+        text, n = r0_pubfields(text)
+    rules = [r for r in rules if r != 'KEEPPRIV']
     text, n = r0_crate_paths(text)
     text, n = r0_duration_const(text)
     if n:
